@@ -1,14 +1,5 @@
-//! throw-away probe: alias-only long flag subcommands under infer_subcommands
-use clap::Command;
+//! Scratch slot for throw-away probes against the real tree (see DESIGN.md: grounding by probes). Nothing registered
+//! in MANIFEST.json uses this binary.
 fn main() {
-    for infer in [false, true] {
-        let cmd = Command::new("p")
-            .infer_subcommands(infer)
-            .subcommand(Command::new("sub").long_flag("co").long_flag_alias("verbose").long_flag_alias("lf-one"))
-            .subcommand(Command::new("subtle").long_flag_alias("verb").long_flag_alias("lf-two"));
-        for argv in [vec!["p", "--verb"], vec!["p", "--lf-two"], vec!["p", "--lf-t"], vec!["p", "--verbose"], vec!["p", "--verbo"]] {
-            let r = cmd.clone().try_get_matches_from(argv.clone());
-            println!("infer={infer} {argv:?} -> {:?}", r.map(|m| m.subcommand_name().map(|s| s.to_owned())).map_err(|e| e.kind()));
-        }
-    }
+    println!("clap {}", clap::crate_version!());
 }
